@@ -365,6 +365,14 @@ func (c *FnCtx) termOf(v Val) string {
 	}
 	if v.Addr != nil {
 		if p := c.addrToPtr(v.Addr); p != "" {
+			if v.T != nil && !c.typedSeen["ptr|"+p] {
+				if pt, ok := v.T.Underlying().(*types.Pointer); ok {
+					if _, isStruct := pt.Elem().Underlying().(*types.Struct); !isStruct {
+						c.typedSeen["ptr|"+p] = true
+						c.smt.assume(c.typeFacts(v.T, p), "") // cell_ty / arr_ty of the location pointed at
+					}
+				}
+			}
 			return p
 		}
 		c.unsupported("address of a local/nested location escapes into memory or a merge")
